@@ -365,7 +365,7 @@ func init() {
 	register("c01", func(args []string) int {
 		f := parseFlags("c01", args)
 		rep := newReport("C01", f)
-		rep.Rule = "random histories (alloc / overwrite / free / flush / checkpoint / rollback, bounded + unbounded, WAL limits 1/2/3/1000, meta areas 0/1/4/8) on the simulated disk; (K2) the complete disk trace of every history is checked by the extracted Coq monitor; (oracle) crash images at I/O boundaries (all in thorough, 40 sampled per history in quick) x subsets of the un-synced page chunks (all subsets up to 4 [quick] / 8 [thorough] chunks, otherwise none/all/singletons/complements/random) x byte-prefix tears of in-flight header writes, each reopened through the real open path, compared with the allowed committed state(s) identified by the header txid, followed by a continuation transaction, re-verification and a second reopen; (K1) the recovery model vs. the open path on sampled crash images. Non-trivial: every distinct (history, boundary, subset, tear)."
+		rep.Rule = "random histories (alloc / overwrite / free / flush / checkpoint / rollback, bounded + unbounded, WAL limits 1/2/3/1000, meta areas 0/1/4/8) on the simulated disk; (K2) the complete disk trace of every history is checked by the extracted Coq monitor; (oracle) crash images at I/O boundaries (all in thorough, 40 sampled per history in quick) x subsets of the un-synced page chunks (all subsets up to 4 [quick] / 8 [thorough] chunks, otherwise none/all/singletons/complements/random) x byte-prefix tears of in-flight header writes, each reopened through the real open path, compared with the allowed committed state(s) identified by the header txid, followed by a continuation transaction, re-verification and a second reopen; (K1) the recovery model vs. the open path on sampled crash images. plus append-only histories whose transactions are flushed early (idle writer at Commit). Non-trivial: every distinct (history, boundary, subset, tear)."
 		m, err := model.Start()
 		if err != nil {
 			fmt.Fprintln(os.Stderr, err)
@@ -408,6 +408,30 @@ func init() {
 			if i < 2 {
 				rep.sample(map[string]interface{}{"config": cfg.String(), "ops": trunc(opKinds(ops), 400)})
 			}
+		}
+		// append-only histories on files without meta area, every transaction is flushed early and the
+		// background writer is idle when Commit starts: the commit adds no meta pages, its first sync request
+		// reaches the writer without any page write
+		for i := 0; i < n/4+3; i++ {
+			hseed := r.Int63()
+			hr := rand.New(rand.NewSource(hseed))
+			cfg := engine.Config{PageSize: 1024, MaxSize: []uint64{0, 64 * 1024, 256 * 1024}[hr.Intn(3)]}
+			var ops []engine.Op
+			base := 0
+			for t := 1 + hr.Intn(4); t > 0; t-- {
+				k := 1 + hr.Intn(4)
+				ops = append(ops, engine.Op{Kind: "begin"}, engine.Op{Kind: "alloc", N: k})
+				for j := 0; j < k; j++ {
+					ops = append(ops, engine.Op{Kind: "setfull", P: base + j, Seed: 1 + hr.Intn(1000)})
+				}
+				base += k
+				if hr.Intn(2) == 0 {
+					ops = append(ops, engine.Op{Kind: "setroot", P: base - 1})
+				}
+				ops = append(ops, engine.Op{Kind: "flush"}, engine.Op{Kind: "drain"}, engine.Op{Kind: "commit"})
+			}
+			rep.count("scenario:append-only-flushed-early", 1)
+			crashHistory(rep, m, cfg, ops, hseed, f.tier, nil)
 		}
 		rep.ModelCalls = m.N
 		return rep.finish(f)
